@@ -232,6 +232,9 @@ class AbstractAst:
                 var = class_()
             except KeyError:
                 raise RTAMTException('The type {} does not seem to be imported.'.format(var_type))
+            except (AttributeError, TypeError) as err:
+                # the module has no such name, or the name cannot be constructed without arguments
+                raise RTAMTException('The type {0} cannot be used for a variable: {1}'.format(var_type, err))
         return var
 
     def declare_var(self, var_name, var_type):
